@@ -87,6 +87,23 @@ theorem afterLast_pos (p : Rule → Bool) (l : List Rule) (k : Nat) (h : afterLa
       · simp at h; omega
       · cases h
 
+theorem afterLast_none (p : Rule → Bool) (l : List Rule) (h : afterLast p l = none) : ∀ r ∈ l, p r = false := by
+  induction l with
+  | nil => intro r hr; cases hr
+  | cons a t ih =>
+    simp only [afterLast] at h
+    split at h
+    · cases h
+    · rename_i hn
+      split at h
+      · cases h
+      · rename_i hp
+        intro r hr
+        simp only [List.mem_cons] at hr
+        rcases hr with hr | hr
+        · subst hr; simpa using hp
+        · exact ih hn r hr
+
 theorem firstIdx_pos (p : Rule → Bool) (e : Name) (t : List Rule) (k : Nat) (hp : p (.charset e) = false)
     (h : firstIdx p (.charset e :: t) = some k) : 1 ≤ k := by
   simp only [firstIdx, hp, Bool.false_eq_true, if_false, Option.map_eq_some_iff] at h
@@ -106,7 +123,6 @@ theorem headFree_of_drop0_any (rules : List Rule) (p : Rule → Bool) (hp : ∀ 
 
 /-- `insertRule` keeps validity -/
 theorem insertRule_valid (rules : List Rule) (rule : Rule) (index : Option Nat) (inOrder : Bool) (r : InsRes)
-    (hio : rule = .variables → inOrder = true → index = none)
     (hv : Valid rules) (h : insertRule rules rule index inOrder = .ok r) : Valid r.rules := by
   unfold insertRule at h
   simp only at h
@@ -203,8 +219,6 @@ theorem insertRule_valid (rules : List Rule) (rule : Rule) (index : Option Nat) 
       simp only at h
       cases inOrder with
       | true =>
-        have hnone := hio rfl rfl
-        subst hnone
         simp only [if_true] at h
         split at h
         · rename_i k hk
@@ -213,20 +227,29 @@ theorem insertRule_valid (rules : List Rule) (rule : Rule) (index : Option Nat) 
         · simp only [Except.ok.injEq] at h; subst h
           refine valid_insertAt rules _ _ hv rfl ?_
           intro h0
-          cases rules with
-          | nil => rfl
-          | cons a t =>
-            cases a with
-            | charset e =>
-              exfalso
-              cases hf : firstIdx (fun r => r == Rule.style || r == Rule.unknown || r == Rule.comment) (Rule.charset e :: t) with
-              | some k =>
-                have := firstIdx_pos _ e t k rfl hf
-                rw [hf] at h0; simp at h0; omega
-              | none =>
-                rw [hf] at h0
-                simp at h0
-            | _ => rfl
+          -- the place is 0 only in an empty sheet or when no @charset / @import precedes
+          cases hal : afterLast (fun r => r.isCharset || r == Rule.imp) rules with
+          | some k0 =>
+            exfalso
+            have hk0 := afterLast_pos _ _ _ hal
+            rw [hal] at h0
+            simp only [Option.getD_some] at h0
+            split at h0
+            · rename_i j _
+              have h1 : k0 + j = 0 := h0
+              omega
+            · cases rules with
+              | nil => simp [afterLast] at hal
+              | cons a t => simp at h0
+          | none =>
+            have hall := afterLast_none _ _ hal
+            cases rules with
+            | nil => rfl
+            | cons a t =>
+              have := hall a List.mem_cons_self
+              cases a with
+              | charset e => simp [Rule.isCharset] at this
+              | _ => rfl
       | false =>
         simp only [Bool.false_eq_true, if_false] at h
         split at h
@@ -301,7 +324,7 @@ theorem setEncoding_valid (valid : Name → Bool) (rules rs : List Rule) (e : Op
       · split at h
         · rename_i r hr
           simp only [Except.ok.injEq] at h; subst h
-          exact insertRule_valid rules _ _ _ r (by intro h; cases h) hv hr
+          exact insertRule_valid rules _ _ _ r hv hr
         · cases h
       · cases h
     · rw [if_neg ht] at h
@@ -372,13 +395,7 @@ theorem parseAll_valid : ∀ (src : List Rule) (exp : Nat) (acc rs : List Rule),
       simp only [parseAll] at h
       exact ih _ _ _ h (valid_append acc _ hv rfl) (by intro h1; cases h1)
 
-/-- the one public call that breaks the invariant (see the known finding C08-inorder-index):
-`insertRule(<@variables rule>, <explicit index>, inOrder=True)` -/
-def OpGuard : Op → Prop
-  | .insert .variables (some _) true => False
-  | _ => True
-
-theorem applyOp_valid (valid : Name → Bool) (rules rs : List Rule) (op : Op) (hg : OpGuard op) (hv : Valid rules)
+theorem applyOp_valid (valid : Name → Bool) (rules rs : List Rule) (op : Op) (hv : Valid rules)
     (h : applyOp valid rules op = .ok rs) : Valid rs := by
   cases op with
   | setEncoding e => exact setEncoding_valid valid rules rs e hv h
@@ -387,12 +404,7 @@ theorem applyOp_valid (valid : Name → Bool) (rules rs : List Rule) (op : Op) (
     split at h
     · rename_i x hx
       simp only [Except.ok.injEq] at h; subst h
-      refine insertRule_valid rules r i o x ?_ hv hx
-      intro hr ho
-      subst hr; subst ho
-      cases i with
-      | none => rfl
-      | some k => exact absurd hg (by simp [OpGuard])
+      exact insertRule_valid rules r i o x hv hx
     · cases h
   | insertCharsetNamed n i o =>
     simp only [applyOp] at h
@@ -402,7 +414,7 @@ theorem applyOp_valid (valid : Name → Bool) (rules rs : List Rule) (op : Op) (
       · split at h
         · rename_i x hx
           simp only [Except.ok.injEq] at h; subst h
-          exact insertRule_valid rules _ i o x (by intro hr; cases hr) hv hx
+          exact insertRule_valid rules _ i o x hv hx
         · cases h
       · cases h
   | delete i => exact deleteRule_valid rules rs i hv h
@@ -411,19 +423,18 @@ theorem applyOp_valid (valid : Name → Bool) (rules rs : List Rule) (op : Op) (
     simp only [applyOp, setCssText] at h
     exact parseAll_valid src 0 [] rs h (by simp [Valid, noCharset]) (fun _ => rfl)
 
-theorem runOps_valid (valid : Name → Bool) : ∀ (ops : List Op) (rules : List Rule), (∀ op ∈ ops, OpGuard op) →
+theorem runOps_valid (valid : Name → Bool) : ∀ (ops : List Op) (rules : List Rule),
     Valid rules → Valid (runOps valid rules ops) := by
   intro ops
   induction ops with
-  | nil => intro rules _ hv; exact hv
+  | nil => intro rules hv; exact hv
   | cons op t ih =>
-    intro rules hg hv
+    intro rules hv
     simp only [runOps]
     split
     · rename_i rs hrs
-      exact ih rs (fun o ho => hg o (List.mem_cons_of_mem _ ho))
-        (applyOp_valid valid rules rs op (hg op List.mem_cons_self) hv hrs)
-    · exact ih rules (fun o ho => hg o (List.mem_cons_of_mem _ ho)) hv
+      exact ih rs (applyOp_valid valid rules rs op hv hrs)
+    · exact ih rules hv
 
 theorem find_noCharset (l : List Rule) (h : noCharset l = true) : l.find? Rule.isCharset = none := by
   rw [List.find?_eq_none]
